@@ -41,6 +41,35 @@ CHECKS = {
              "in tools/props/c05.py, the harness' walk over Bodies.",
         technique="TLA+ static semantics (TLC enumeration) + spec-to-implementation replay",
         ref="DESIGN.md section 4 C05"),
+    "C12": dict(
+        engine="Ty/TyRelLaws",
+        category="model_checking",
+        text="TLC generates the type universe (Ty.tla: every primitive, weak {int}/{uint}/{float}, "
+             "nil, void, nominal shapes over a small uid pool, one constructor level; universe 2: "
+             "constructors over selected depth-1 types). The harness instantiates every term as a "
+             "real Intern<Ty> and evaluates can_fit_into, can_cast_to, weak replaceability and max "
+             "(both orders) on every ordered pair; TLC validates every record against the laws of "
+             "TyRelLaws.tla (reflexive, fit => cast, weak => fit, max accepts both, max symmetric) "
+             "and asserts that the table is the whole U x U.",
+        note="quick: universe 1 (150 types, 22 500 pairs); thorough adds universe 2. The laws are "
+             "checked on what the code answers, not on a transcription of it. Trusted: TLC, the "
+             "harness' term -> Ty construction. Known finding F12-type-of-zero-sized.",
+        technique="TLA+ law checking (TLC) over the exhaustively recorded relation table",
+        ref="DESIGN.md section 4 C12"),
+    "C13": dict(
+        engine="Ty/TyRelLaws",
+        category="model_checking",
+        text="Same recorded table as C12; TLC checks the nominal-typing laws of TyRelLaws.tla: a "
+             "distinct, enum-variant or named-struct source is never implicitly accepted by a "
+             "different nominal type nor by its own underlying type (except variant -> own enum), "
+             "and casts between a distinct and its underlying type are accepted in both "
+             "directions. The universe has two enums with identical payloads, structurally "
+             "identical named structs, two distincts of one type and a distinct of a distinct.",
+        note="Relation level only (acceptance of programs placing such values in annotations, "
+             "arguments, returns and operands is exercised by the executed-program checks). "
+             "Trusted: TLC, the harness' term -> Ty construction.",
+        technique="TLA+ law checking (TLC) over the exhaustively recorded relation table",
+        ref="DESIGN.md section 4 C13"),
     "C22": dict(
         engine="Lexer",
         category="model_checking",
